@@ -3,8 +3,10 @@
 Format (NIST SPHERE 2.6 documentation): an ASCII header whose first two lines are
 "NIST_1A" and the header size right-justified in 7 columns, then object-oriented
 "name -type value" lines (types -i integer, -r real, -sN string of N bytes), the line
-"end_head", and padding up to the header size (a multiple of 1024).  Sample data follows
-immediately: interleaved frames of channel_count samples of sample_n_bytes bytes;
+"end_head", and padding up to the header size.  NIST's own tools write multiples of 1024, but
+the size line is what tells a reader where the samples start (sph2pipe and libsndfile both
+seek to the declared size), so this writer produces any declared size >= the bytes the fields
+need.  Sample data follows immediately: interleaved frames of channel_count samples of sample_n_bytes bytes;
 sample_byte_format "01" = least significant byte first, "10" = most significant first,
 "1" for single-byte codings; sample_coding pcm | ulaw | alaw.
 
@@ -75,35 +77,68 @@ def build_header(fields, size=None, magic=b"NIST_1A", size_text=None):
     return head + b" " * (size - len(head) - 1) + b"\n" if len(head) < size else head
 
 
-def header_variant(variant, coding, channels, count):
-    """named header layouts: h1024 | h2048 | h3072 | extra | extra2048 | shuffled"""
+LAYOUTS = ("plain", "extra", "shuffled", "deep")
+
+
+def layout_fields(layout, coding, channels, count):
+    """the field list of a named layout:
+    plain     the mandatory fields in the customary order
+    extra     corpus-style optional fields before, between and after the mandatory ones
+    shuffled  mandatory fields in reverse order (plus one optional field)
+    deep      so many preceding fields that every mandatory field lies beyond byte 1024"""
     f = header_fields(coding, channels, count)
-    if variant == "h1024":
-        return build_header(f, 1024)
-    if variant == "h2048":
-        return build_header(f, 2048)
-    if variant == "h3072":
-        return build_header(f, 3072)
+    if layout == "plain":
+        return f
+    if layout == "extra":
+        return _EXTRA_FRONT + f[:2] + _EXTRA_MID[:2] + f[2:4] + _EXTRA_MID[2:] + f[4:] + _EXTRA_BACK
+    if layout == "shuffled":
+        return list(reversed(f)) + _EXTRA_MID[:1]
+    if layout == "deep":
+        filler = [("comment_%02d" % i, "-s40", "%040d" % i) for i in range(18)]
+        return _EXTRA_FRONT + filler + f + _EXTRA_BACK
+    raise ValueError(layout)
+
+
+def layout_min_size(layout, coding, channels, count):
+    """smallest header size that holds the layout (never below the format's minimum of 1024)"""
+    g = layout_fields(layout, coding, channels, count)
+    need = 16 + sum(len("%s %s %s\n" % f) for f in g) + len("end_head\n")
+    return max(1024, need)
+
+
+def header_layout(layout, size, coding, channels, count):
+    """header of exactly `size` bytes (any value >= layout_min_size, multiple of 1024 or not)"""
+    h = build_header(layout_fields(layout, coding, channels, count), size)
+    assert len(h) == size
+    if layout == "deep":
+        assert h.index(b"channel_count") > 1024
+    return h
+
+
+def header_variant(variant, coding, channels, count):
+    """named headers: h<N> (plain layout, N bytes: h1024, h1500, h2048 ...) | extra | extra2048
+    (= deep layout) | shuffled, the last three in the smallest multiple of 1024 that fits"""
+    if variant[:1] == "h" and variant[1:].isdigit():
+        return header_layout("plain", int(variant[1:]), coding, channels, count)
     if variant == "extra":
-        g = _EXTRA_FRONT + f[:2] + _EXTRA_MID[:2] + f[2:4] + _EXTRA_MID[2:] + f[4:] + _EXTRA_BACK
-        h = build_header(g)
+        h = build_header(layout_fields("extra", coding, channels, count))
         assert len(h) == 1024
         return h
     if variant == "extra2048":
-        # enough preceding fields that every mandatory field lies beyond byte 1024
-        filler = [("comment_%02d" % i, "-s40", "%040d" % i) for i in range(18)]
-        h = build_header(_EXTRA_FRONT + filler + f + _EXTRA_BACK)
+        h = build_header(layout_fields("deep", coding, channels, count))
         assert len(h) == 2048 and h.index(b"channel_count") > 1024
         return h
     if variant == "shuffled":
-        # mandatory fields in reverse order
-        h = build_header(list(reversed(f)) + _EXTRA_MID[:1])
+        h = build_header(layout_fields("shuffled", coding, channels, count))
         assert len(h) == 1024
         return h
     raise ValueError(variant)
 
 
-HEADER_VARIANTS = ("h1024", "h2048", "h3072", "extra", "extra2048", "shuffled")
+# more header sizes: next to and between the multiples of 1024, and a fifth block
+ODD_SIZES = (1025, 1500, 2047, 2049, 2050, 4000, 5120)
+HEADER_VARIANTS = ("h1024", "h2048", "h3072", "extra", "extra2048", "shuffled") + tuple(
+    "h%d" % n for n in ODD_SIZES)
 
 
 def encode_samples(coding, samples):
@@ -143,7 +178,8 @@ def selftest():
     for v in HEADER_VARIANTS:
         for c in CODINGS:
             h = header_variant(v, c, 3, 77)
-            assert len(h) % 1024 == 0 and int(h.split(b"\n")[1]) == len(h)
+            assert int(h.split(b"\n")[1]) == len(h) and h[8:15] == b"%7d" % len(h)
+            assert len(h) == (int(v[1:]) if v[1:].isdigit() else 2048 if v == "extra2048" else 1024)
             lines = h.split(b"\n")
             assert lines[0] == b"NIST_1A" and b"end_head" in lines
             names = [ln.split()[0] for ln in lines[2:lines.index(b"end_head")]]
@@ -156,6 +192,26 @@ def selftest():
                     int(val)
                 else:
                     assert typ == "-r" and float(val) is not None
+    # any size from the layout's minimum up; the fields never move, only the padding grows
+    for lay in LAYOUTS:
+        lo = layout_min_size(lay, "pcm01", 3, 77)
+        assert lo >= 1024 and (lay == "deep") == (lo > 1024)
+        ref = header_layout(lay, lo, "pcm01", 3, 77)
+        for size in (lo, lo + 1, 2047, 2048, 2049, 4000):
+            if size < lo:
+                continue
+            h = header_layout(lay, size, "pcm01", 3, 77)
+            assert len(h) == size and int(h[8:15]) == size and h[15:16] == b"\n"
+            end = h.index(b"end_head\n") + 9
+            assert h[16:end] == ref[16:ref.index(b"end_head\n") + 9]
+            assert set(h[end:-1]) <= {0x20} and h[-1:] == b"\n"
+        if lo > 1024:
+            try:
+                header_layout(lay, lo - 1, "pcm01", 3, 77)
+            except ValueError:
+                pass
+            else:
+                raise AssertionError("a header smaller than its fields was built")
     # second opinion: libsndfile's own NIST reader, where available
     try:
         import soundfile as sf
@@ -179,6 +235,12 @@ def selftest():
             for c in ("ulaw", "alaw"):
                 got, _ = sf.read(io.BytesIO(write_bytes(c, codes, v)), dtype="int16")
                 assert np.array_equal(got, g711.expand(c, codes)), (v, c)
+        # ... which also seeks to whatever header size is declared
+        for lay in ("plain", "extra", "shuffled"):
+            for size in (1024, 1025, 1500, 2047, 2049, 4000):
+                b = header_layout(lay, size, "pcm10", 3, 4) + encode_samples("pcm10", pcm)
+                got, _ = sf.read(io.BytesIO(b), dtype="int16")
+                assert np.array_equal(got, pcm), (lay, size)
     return True
 
 
